@@ -53,6 +53,7 @@ class PopenFuture(concurrent.futures.Future):
         self.start_time = None
         self.end_time = None
         self._exception = None
+        self._cancel_requested = False
 
     def start(self):
         """Starts the subprocess and immediately returns."""
@@ -61,6 +62,10 @@ class PopenFuture(concurrent.futures.Future):
             try:
                 self.start_time = time.time()
                 self.process = Popen(self.cmd, stdout=PIPE, stderr=PIPE, text=True)
+
+                # cancel() may have run before the process handle became visible to it
+                if self._cancel_requested:
+                    self.cancel()
 
                 # blocks until the process terminates
                 self.stdout, self.stderr = self.process.communicate(
@@ -89,6 +94,9 @@ class PopenFuture(concurrent.futures.Future):
 
     def cancel(self):
         """Attempts to terminate and then kill the process and its children."""
+        # set before looking at self.process, see start()
+        self._cancel_requested = True
+
         if not self.is_running():
             return
 
